@@ -1,16 +1,16 @@
 SPECIFICATION Spec
 CONSTANTS
   Workers = {w1}
-  Clients = {c1, c2}
+  Clients = {c1}
   Digests = {d1, d2}
   NoCache = {d2}
   Invs = {"i1"}
-  MaxTasks = 2
-  MaxOps = 2
+  MaxTasks = 1
+  MaxOps = 1
   RetryLimit = 1
   Predeclared = FALSE
   AllowRequeue = FALSE
-  Features = {"cancel", "sendfail", "kill", "wrong"}
+  Features = {"cancel", "sendfail", "kill", "wrong", "wait"}
 INVARIANTS
   TypeOK
   C01_Design
